@@ -156,11 +156,11 @@ Definition compactness (m : model) : Q :=
 Definition vol_inh_net_model (m : model) : Q :=
   round2 (qsum (map (fun s => if s_inside s && negb (spacetype_eqb (s_kind s) UNINHABITED)
                               then space_area m (s_id s) * space_height_net m s * s_mult s else 0) (m_spaces m))).
-(* 3.6 n / V; None when V = 0 (the code divides by zero) *)
+(* 3.6 n / V; 0 without a flow or without a habitable volume inside the envelope to spread it over *)
 Definition vent_of (g : option Q) (v : Q) : option Q :=
   match g with
   | None => Some 0
-  | Some n => if qeqb v 0 then None else Some ((36 # 10) * n / v)
+  | Some n => if qleb v 0 then Some 0 else Some ((36 # 10) * n / v)
   end.
 Definition vent_props (m : model) : option Q := vent_of (mt_gvent (m_meta m)) (vol_env_inh_net m).
 Definition vent_model (m : model) : option Q := vent_of (mt_gvent (m_meta m)) (vol_inh_net_model m).
